@@ -121,9 +121,9 @@ Lemma safe_struct_parse_at legacy L binds bs pos n :
        (fun _ => 0 <= pos /\ pos + Z.of_nat n <= flen bs).
 Proof.
   intros Hn Hn0 c. unfold struct_parse_at, seek_error.
-  destruct (Z.ltb_spec pos 0) as [Hneg|Hpos]; [cbn; discriminate|].
+  destruct (Z.ltb_spec pos 0) as [Hneg|Hpos]; [destruct legacy; cbn; discriminate|].
   destruct (Z.ltb_spec MAX_SSIZE pos) as [Hbig|Hsm].
-  { destruct (("OverflowError" =? "OverflowError")%string && negb legacy); cbn; discriminate. }
+  { destruct legacy; cbn; discriminate. }
   rewrite Hn. unfold decode_layout.
   set (win := read_n (rest_at bs pos) (Z.of_nat n)).
   destruct (decode_fields L [] win) as [[r t]|] eqn:Ed; cbn [fst]; [|discriminate].
@@ -145,9 +145,9 @@ Proof.
   intros HL Hb Hn Hn0 c.
   pose proof (safe_struct_parse_at legacy L binds bs pos n Hn Hn0 c) as H1.
   unfold struct_parse_at, seek_error in *.
-  destruct (Z.ltb_spec pos 0) as [Hneg|Hpos]; [cbn; discriminate|].
+  destruct (Z.ltb_spec pos 0) as [Hneg|Hpos]; [destruct legacy; cbn; discriminate|].
   destruct (Z.ltb_spec MAX_SSIZE pos) as [Hbig|Hsm].
-  { destruct (("OverflowError" =? "OverflowError")%string && negb legacy); cbn; discriminate. }
+  { destruct legacy; cbn; discriminate. }
   rewrite Hn in *. unfold decode_layout in *.
   set (win := read_n (rest_at bs pos) (Z.of_nat n)) in *.
   assert (Hw : all_bytes win = true) by (apply all_bytes_takez, all_bytes_rest_at; exact Hb).
@@ -175,7 +175,7 @@ Qed.
 Lemma safe_spa_T legacy L binds bs pos : safe (struct_parse_at legacy L binds bs pos) (fun _ => True).
 Proof.
   intros c. unfold struct_parse_at. destruct (seek_error pos) as [t|].
-  - destruct ((t =? "OverflowError")%string && negb legacy); cbn; discriminate.
+  - destruct legacy; cbn; discriminate.
   - destruct (decode_layout L _) as [[r t]|]; cbn [fst]; [|discriminate].
     destruct (strict_ok binds r); cbn [fst]; [exact I|discriminate].
 Qed.
@@ -322,7 +322,7 @@ Qed.
 Lemma safe_struct_parse_arr_at_T b L pos : safe (struct_parse_arr_at b L pos) (fun _ => True).
 Proof.
   intros c. unfold struct_parse_arr_at. destruct (seek_error pos) as [t|].
-  - destruct ((t =? "OverflowError")%string && negb (leg_of b)); cbn; discriminate.
+  - destruct (leg_of b); cbn; discriminate.
   - destruct (decode_fields_g L [] _ _) as [[r a]|]; cbn [fst]; [exact I|discriminate].
 Qed.
 
@@ -611,9 +611,9 @@ Lemma safe_parse_prop b off :
   bgood b -> safe (parse_prop b off) (fun datasz => 0 <= off /\ off + 1 <= flen (bs_of b) /\ 0 <= datasz).
 Proof.
   intros (Hb & _ & _ & _) c. unfold parse_prop, seek_error.
-  destruct (Z.ltb_spec off 0) as [Hneg|Hpos]; [cbn; discriminate|].
+  destruct (Z.ltb_spec off 0) as [Hneg|Hpos]; [destruct (leg_of b); cbn; discriminate|].
   destruct (Z.ltb_spec MAX_SSIZE off) as [Hbig|Hsm].
-  { destruct (("OverflowError" =? "OverflowError")%string && negb (leg_of b)); cbn; discriminate. }
+  { destruct (leg_of b); cbn; discriminate. }
   set (rest := rest_at (bs_of b) off). set (win := read_n rest 8).
   unfold decode_layout.
   destruct (decode_fields (prop_head b) [] win) as [[r t]|] eqn:Ed; cbn [fst]; [|discriminate].
@@ -847,7 +847,7 @@ Proof. destruct b; auto. Qed.
 Lemma cost_struct_parse_at legacy L binds bs pos : cost (struct_parse_at legacy L binds bs pos) 1.
 Proof.
   intros c. unfold struct_parse_at. destruct (seek_error pos) as [t|].
-  - destruct ((t =? "OverflowError")%string && negb legacy); cbn; lia.
+  - destruct legacy; cbn; lia.
   - destruct (decode_layout L _) as [[r t]|]; [destruct (strict_ok binds r)|]; cbn; unfold ops; cbn; lia.
 Qed.
 Lemma cost_cstring_at fuel bs pos : cost (cstring_at fuel bs pos) 1.
